@@ -30,11 +30,12 @@ structure Ext (t : Nat) (s s' : St) : Prop where
   sw   : ∀ S lc, s.sw S = some lc → s'.sw S = some lc
   proc : ∀ n, s.proc n = true → s'.proc n = true
   ev   : ∀ n, s.evSet n = true → s'.evSet n = true
+  stale : s'.stale = s.stale
 
 theorem TaskExt.refl (s' : St) (tk : Task) : TaskExt s' tk tk := ⟨rfl, rfl, rfl, Or.inl rfl⟩
 
 theorem Ext.refl (t : Nat) (s : St) : Ext t s s :=
-  ⟨fun i tk h _ => ⟨tk, h, TaskExt.refl s tk⟩, rfl, fun _ _ h => h, fun _ _ h => h, fun _ h => h, fun _ h => h⟩
+  ⟨fun i tk h _ => ⟨tk, h, TaskExt.refl s tk⟩, rfl, fun _ _ h => h, fun _ _ h => h, fun _ h => h, fun _ h => h, rfl⟩
 
 theorem Woke.mono {s s' : St} (hev : ∀ n, s.evSet n = true → s'.evSet n = true) {w : Wait} (h : Woke s w) : Woke s' w := by
   cases w with
@@ -45,7 +46,7 @@ theorem Woke.mono {s s' : St} (hev : ∀ n, s.evSet n = true → s'.evSet n = tr
 
 theorem Ext.trans {t : Nat} {a b c : St} (h1 : Ext t a b) (h2 : Ext t b c) : Ext t a c := by
   refine ⟨?_, by rw [h2.self, h1.self], fun n v h => h2.res n v (h1.res n v h), fun S lc h => h2.sw S lc (h1.sw S lc h),
-    fun n h => h2.proc n (h1.proc n h), fun n h => h2.ev n (h1.ev n h)⟩
+    fun n h => h2.proc n (h1.proc n h), fun n h => h2.ev n (h1.ev n h), by rw [h2.stale, h1.stale]⟩
   intro i tk hi hne
   obtain ⟨tk1, hi1, e1⟩ := h1.old i tk hi hne
   obtain ⟨tk2, hi2, e2⟩ := h2.old i tk1 hi1 hne
@@ -355,9 +356,10 @@ theorem wakeIf_runnable (p : Wait → Bool) (tk : Task) (h : ∃ rv, tk.st = .ru
 theorem Ext.of_wake {t : Nat} {s s' : St} (p : Wait → Bool) (ht : s'.tasks = s.tasks.map (wakeIf p))
     (hp : ∀ w, p w = true → Woke s' w) (hrt : ∀ tkt, s.tasks[t]? = some tkt → ∃ rv, tkt.st = .runnable rv)
     (hres : ∀ n v, s.res n = some v → s'.res n = some v) (hsw : ∀ S lc, s.sw S = some lc → s'.sw S = some lc)
-    (hproc : ∀ n, s.proc n = true → s'.proc n = true) (hev : ∀ n, s.evSet n = true → s'.evSet n = true) :
+    (hproc : ∀ n, s.proc n = true → s'.proc n = true) (hev : ∀ n, s.evSet n = true → s'.evSet n = true)
+    (hstale : s'.stale = s.stale := by rfl) :
     Ext t s s' := by
-  refine ⟨?_, ?_, hres, hsw, hproc, hev⟩
+  refine ⟨?_, ?_, hres, hsw, hproc, hev, hstale⟩
   · intro i tk hi _
     refine ⟨wakeIf p tk, ?_, wakeIf_taskExt s' p hp tk⟩
     rw [ht, List.getElem?_map, hi]; rfl
@@ -418,9 +420,10 @@ theorem Ext.nodeFinally {P : Program} {t : Nat} {s : St} (d : DagRef) (n : Node)
 /-- an update of the storage only -/
 theorem Ext.of_data {t : Nat} {s s' : St} (ht : s'.tasks = s.tasks)
     (hres : ∀ n v, s.res n = some v → s'.res n = some v) (hsw : ∀ S lc, s.sw S = some lc → s'.sw S = some lc)
-    (hproc : ∀ n, s.proc n = true → s'.proc n = true) (hev : ∀ n, s.evSet n = true → s'.evSet n = true) :
+    (hproc : ∀ n, s.proc n = true → s'.proc n = true) (hev : ∀ n, s.evSet n = true → s'.evSet n = true)
+    (hstale : s'.stale = s.stale := by rfl) :
     Ext t s s' :=
-  ⟨fun i tk hi _ => ⟨tk, by rw [ht]; exact hi, TaskExt.refl s' tk⟩, by rw [ht], hres, hsw, hproc, hev⟩
+  ⟨fun i tk hi _ => ⟨tk, by rw [ht]; exact hi, TaskExt.refl s' tk⟩, by rw [ht], hres, hsw, hproc, hev, hstale⟩
 
 theorem Ext.markProcessed {t : Nat} (s : St) (n : Node) : Ext t s (s.markProcessed n) := by
   refine Ext.of_data rfl (fun _ _ h => h) (fun _ _ h => h) ?_ (fun _ h => h)
@@ -449,7 +452,7 @@ theorem Ext.setSw {t : Nat} (s : St) (S : Node) (lc : Label × Node) (hold : ∀
 
 theorem Ext.spawn {t : Nat} (s : St) (fs : List Frame) (nm : TaskName) (ht : t < s.tasks.length) :
     Ext t s (spawn s fs nm).1 := by
-  refine ⟨?_, ?_, fun _ _ h => h, fun _ _ h => h, fun _ h => h, fun _ h => h⟩
+  refine ⟨?_, ?_, fun _ _ h => h, fun _ _ h => h, fun _ h => h, fun _ h => h, rfl⟩
   · intro i tk hi _
     refine ⟨tk, ?_, TaskExt.refl _ tk⟩
     simp only [Eng.spawn]
@@ -790,7 +793,7 @@ theorem struct_node_exec {P : Program} {depth : Node → Nat} {s s1 : St} (hs : 
   refine Struct.close hs ⟨tkt, htkt, rfl⟩ e hlen ?_ ?_ ?_ ?_ ?_ ?_ ?_ ?_
   · -- the storage part
     refine ⟨fun n => ⟨by rw [show (s1.setTask t _).resHid = s1.resHid from rfl, hrh]; exact (hd.noHid n).1, hph n⟩,
-      fun n v h => hd.noRec n v (by rw [← hres]; exact h), ?_, ?_, ?_, ?_, ?_, ?_, ?_, ?_, ?_⟩
+      fun n v h => hd.noRec n v (by rw [← hres]; exact h), ?_, ?_, ?_, ?_, ?_, ?_, ?_, ?_, ?_, e.stale.trans hd.stale⟩
     · intro n hn
       rcases hprocs n hn with rfl | h
       · exact Or.inr ⟨t, _, by rw [getElem?_close hlt, if_pos rfl], hlive, d, false, pc', rfl, hpc'⟩
@@ -868,7 +871,7 @@ theorem ldata_same {P : Program} {t : Nat} {s s1 : St} (hd : LData P s) (e : Ext
     LData P (s1.setTask t tk') := by
   refine ⟨fun n => ⟨by rw [show (s1.setTask t tk').resHid = s1.resHid from rfl, hrh]; exact (hd.noHid n).1,
       by rw [show (s1.setTask t tk').procHid = s1.procHid from rfl, hph]; exact (hd.noHid n).2⟩,
-    fun n v h => hd.noRec n v (by rw [← hres]; exact h), ?_, ?_, ?_, ?_, ?_, ?_, ?_, ?_, ?_⟩
+    fun n v h => hd.noRec n v (by rw [← hres]; exact h), ?_, ?_, ?_, ?_, ?_, ?_, ?_, ?_, ?_, e.stale.trans hd.stale⟩
   · intro n hn
     have hn' : s.proc n = true := by rw [← hproc]; exact hn
     rcases hd.c1 n hn' with h | h
@@ -1132,7 +1135,8 @@ theorem struct_node_done {P : Program} {depth : Node → Nat} (hp : LiveP P dept
     {t : Nat} {tkt : Task} (htkt : s.tasks[t]? = some tkt) {d : DagRef} {q : Node} {pc0 : NodePc}
     (hnm : tkt.name = .node q) (hns : P.g.isSwitch q = false) (hf0 : tkt.frames = [.node d q false pc0])
     (hrt : ∃ rv, tkt.st = .runnable rv)
-    (htasks : s0.tasks = s.tasks) (hsw : s0.sw = s.sw) (hev : s0.evSet = s.evSet) (hrh : s0.resHid = s.resHid)
+    (htasks : s0.tasks = s.tasks) (hstl : s0.stale = s.stale) (hsw : s0.sw = s.sw) (hev : s0.evSet = s.evSet)
+    (hrh : s0.resHid = s.resHid)
     (hph : ∀ n, s0.procHid n = false) (hpq : s0.proc q = true)
     (hprocs : ∀ n, s0.proc n = true → n = q ∨ s.proc n = true) (hprocm : ∀ n, s.proc n = true → s0.proc n = true)
     (hresn : ∀ n, n ≠ q → s0.res n = s.res n)
@@ -1159,7 +1163,7 @@ theorem struct_node_done {P : Program} {depth : Node → Nat} (hp : LiveP P dept
       · rw [h'] at h; cases h
     · rw [hresn n hnq]; exact h
   have e0 : Ext t s s0 := Ext.of_data htasks hresm (fun S lc h => by rw [hsw]; exact h) hprocm
-    (fun n h => by rw [hev]; exact h)
+    (fun n h => by rw [hev]; exact h) hstl
   have e1 : Ext t s0 (nodeFinally P s0 d q true) := Ext.nodeFinally d q hrt0
   have e : Ext t s (nodeFinally P s0 d q true) := e0.trans e1
   obtain ⟨f1, f2, f3, f4, _, f6, _, _⟩ := nodeFinally_fields P s0 d q true
@@ -1192,7 +1196,7 @@ theorem struct_node_done {P : Program} {depth : Node → Nat} (hp : LiveP P dept
     · rw [hF_procHid _, f4]
       exact hph n
   refine Struct.close hs ⟨tkt, htkt, rfl⟩ e (len_ne_one hs htkt hnc) ?_ ?_ ?_ ?_ ?_ ?_ ?_ ?_
-  · refine ⟨hnoHid, ?_, ?_, ?_, ?_, ?_, ?_, ?_, ?_, ?_, ?_⟩
+  · refine ⟨hnoHid, ?_, ?_, ?_, ?_, ?_, ?_, ?_, ?_, ?_, ?_, e.stale.trans hd.stale⟩
     · intro n v h
       rw [hF_res _, f1] at h
       by_cases hnq : n = q
@@ -1816,7 +1820,7 @@ theorem struct_dagInit {P : Program} {depth : Node → Nat} (hp : LiveP P depth)
   have hv' : validOrder P s1 d c.ord = true := by rw [← hcP]; exact hv
   obtain ⟨y, hproc⟩ := x.ofValid hp hv'
   unfold dagInit
-  simp only [hv, noteOrder_true, x.dag.notRec, Bool.false_eq_true, if_false]
+  simp only [refresh_of_nil (x.e.stale.trans x.hs.data.stale), hv, noteOrder_true]
   cases hco : c.ord with
   | nil =>
     simp only []
@@ -1963,7 +1967,7 @@ theorem struct_setSw {P : Program} {depth : Node → Nat} (hp : LiveP P depth) {
   rw [← setTask_self htkt']
   obtain ⟨e0, he0, heu, hev, hcase⟩ := switchSelect_edge hsel
   refine Struct.close hs ⟨tkt, htkt, rfl⟩ e (len_ne_one hs htkt hnc) ?_ ?_ ?_ ?_ ?_ ?_ ?_ ?_
-  · refine ⟨hd.noHid, hd.noRec, ?_, ?_, hd.c5, ?_, ?_, hd.c6, hd.procPlain, ?_, ?_⟩
+  · refine ⟨hd.noHid, hd.noRec, ?_, ?_, hd.c5, ?_, ?_, hd.c6, hd.procPlain, ?_, ?_, hd.stale⟩
     · intro n hn
       rcases hd.c1 n hn with h | h
       · exact Or.inl h
@@ -2065,7 +2069,7 @@ theorem obs_dagLaunch (c : Ctx) (d : DagRef) (below : List Frame) : ∀ (rest : 
     · exact obs_block _ _ _ _ _ o ho
 
 /-- a section that enters `_run_dag` and reports no inadmissible launch order got an admissible one -/
-theorem valid_of_dagInit (c : Ctx) (s : St) (obs : List Obs) (d : DagRef) (below : List Frame)
+theorem valid_of_dagInit (c : Ctx) (s : St) (obs : List Obs) (d : DagRef) (below : List Frame) (hst : s.stale = [])
     (h : Obs.badOracle ∉ (dagInit c s obs d below).2) : validOrder c.P s d c.ord = true := by
   cases hv : validOrder c.P s d c.ord with
   | true => rfl
@@ -2073,7 +2077,7 @@ theorem valid_of_dagInit (c : Ctx) (s : St) (obs : List Obs) (d : DagRef) (below
     exfalso
     apply h
     unfold dagInit
-    simp only [hv, Bool.false_eq_true, if_false]
+    simp only [refresh_of_nil hst, hv, Bool.false_eq_true, if_false]
     split
     · exact obs_retTo _ _ _ _ _ _ (by simp)
     · exact obs_dagLaunch _ _ _ _ _ _ _ (by simp)
@@ -2133,7 +2137,7 @@ theorem struct_switchStart {P : Program} {depth : Node → Nat} (hp : LiveP P de
           intro i tk hi h
           have := getElem?_lt h
           omega }
-    exact struct_dagInit hp c hcP hmc x obs (valid_of_dagInit c _ obs sub _ hv)
+    exact struct_dagInit hp c hcP hmc x obs (valid_of_dagInit c _ obs sub _ hs.data.stale hv)
 
 /-- **the main `_run_dag` starts** -/
 theorem struct_main_dagInit {P : Program} {depth : Node → Nat} (hp : LiveP P depth) (c : Ctx) (hcP : c.P = P) {s : St}
@@ -2152,7 +2156,7 @@ theorem struct_main_dagInit {P : Program} {depth : Node → Nat} (hp : LiveP P d
         intro i tk hi h
         have := getElem?_lt h
         omega }
-  exact struct_dagInit hp c hcP hmc x obs (valid_of_dagInit c _ obs d _ hv)
+  exact struct_dagInit hp c hcP hmc x obs (valid_of_dagInit c _ obs d _ hs.data.stale hv)
 
 
 /-! ### the sections of `_run_dag`, from the task's frames -/
@@ -2261,7 +2265,7 @@ theorem struct_dagInit_task {P : Program} {depth : Node → Nat} (hp : LiveP P d
   have hmc : tkt.mustCancel = false := hs.data.noCancel tkt (List.mem_of_getElem? htkt)
   obtain ⟨d1, hdf, x⟩ := lbase_of_dagTask hs htkt hrt hf0 rfl
   cases hdf with
-  | init => exact struct_dagInit hp c hcP hmc x obs (valid_of_dagInit c _ obs d _ hv)
+  | init => exact struct_dagInit hp c hcP hmc x obs (valid_of_dagInit c _ obs d _ hs.data.stale hv)
 
 
 /-! ### the sections of `_run_node` -/
@@ -2328,6 +2332,8 @@ theorem NCtx.done {P : Program} {depth : Node → Nat} {c : Ctx} {s s1 : St} {tk
         · rfl
         · exact hn
   obtain ⟨t1, t2, t3, t4, t5, t6, t7, t8, t9⟩ := b1
+  have tst : s1.stale = s.stale := by
+    rcases x.st with ⟨h, _⟩ | ⟨h, _⟩ <;> rw [h] <;> rfl
   have hex : pc0.exec = true ∨ s.procExists q = false := by
     rcases x.st with ⟨_, h, _⟩ | ⟨_, _, h⟩
     · exact Or.inl h
@@ -2343,13 +2349,13 @@ theorem NCtx.done {P : Program} {depth : Node → Nat} {c : Ctx} {s s1 : St} {tk
   rw [endTask_eq c _ obs r hself]
   rcases hs0 with h | ⟨v, h, hv⟩
   · subst h
-    refine struct_node_done x.hp x.hs x.htkt x.hnm x.hns x.hf0 x.hrt t1 t2 t3 t4 t6 t7 t8 t9 (fun n _ => by rw [t5])
+    refine struct_node_done x.hp x.hs x.htkt x.hnm x.hns x.hf0 x.hrt t1 tst t2 t3 t4 t6 t7 t8 t9 (fun n _ => by rw [t5])
       (Or.inl (by rw [t5])) r ?_
     rcases hr with h | ⟨h1, h2⟩
     · exact Or.inl h
     · exact Or.inr ⟨h1, Or.inl h2⟩
   · subst h
-    refine struct_node_done (s0 := s1.setRes q v) x.hp x.hs x.htkt x.hnm x.hns x.hf0 x.hrt t1 t2 t3 ?_ t6 t7 t8 t9 ?_ ?_ r ?_
+    refine struct_node_done (s0 := s1.setRes q v) x.hp x.hs x.htkt x.hnm x.hns x.hf0 x.hrt t1 tst t2 t3 ?_ t6 t7 t8 t9 ?_ ?_ r ?_
     · funext n
       simp only [St.setRes, upd]
       split
@@ -2408,7 +2414,7 @@ theorem NCtx.finish (x : NCtx P depth c s s1 tkt d q pc0) (v : Val) (hv : v.isRe
 theorem NCtx.post (x : NCtx P depth c s s1 tkt d q pc0) (v : Val) (hv : v.isRecur = false) (obs : List Obs) :
     Struct P depth (nodePost c s1 obs d q [] v true).1 := by
   unfold nodePost
-  simp only [hv, Bool.false_eq_true, if_false, recSpawn, storeIf, if_true, Bool.not_false, Bool.true_and]
+  simp only [hv, Bool.false_eq_true, if_false, recSpawn, recSpawns, storeIf, if_true, Bool.not_false, Bool.true_and]
   split
   · rw [cbCall_noYield c x.noYield]
     split
@@ -2514,7 +2520,7 @@ theorem struct_node_read {P : Program} {depth : Node → Nat} (hp : LiveP P dept
       | none => rfl
       | some v => exact hd.noRec q v hr
   unfold nodePost
-  simp only [hv, Bool.false_eq_true, if_false, recSpawn, storeIf, Bool.false_and, Bool.not_false]
+  simp only [hv, Bool.false_eq_true, if_false, recSpawn, recSpawns, storeIf, Bool.false_and, Bool.not_false]
   unfold retTo
   simp only []
   have hself : (nodeFinally c.P s d q true).tasks[c.t]? = some tkt := by
@@ -2522,7 +2528,7 @@ theorem struct_node_read {P : Program} {depth : Node → Nat} (hp : LiveP P dept
       intro tk0 h; rw [htkt] at h; cases h; exact hrt)
     rw [e1.self]; exact htkt
   rw [endTask_eq c _ obs _ hself, hcP]
-  exact struct_node_done hp hs htkt hnm hns hf0 hrt rfl rfl rfl rfl (fun n => (hd.noHid n).2) hpq (fun n h => Or.inr h)
+  exact struct_node_done hp hs htkt hnm hns hf0 hrt rfl rfl rfl rfl rfl (fun n => (hd.noHid n).2) hpq (fun n h => Or.inr h)
     (fun n h => h) (fun n _ => rfl) (Or.inl rfl) .ok (Or.inr ⟨rfl, Or.inr hev⟩)
 
 /-- **`_run_node` starts** -/
